@@ -40,6 +40,7 @@ func (c17) Assumptions() []string {
 
 func (c17) Gates(tier string, m map[string]int64) []rt.Gate {
 	return []rt.Gate{
+		rt.GateMin("run-time faults on constant calls at known offsets (also behind non-ASCII text)", m, "known_offsets_checked", 100),
 		rt.GateMin("statements whose last literal lost its closing quote", m, "unterminated_last_literal", 500),
 		rt.GateMin("errors held across later failing statements and rendered again", m, "held_errors_rechecked", 1000),
 		rt.GateMin("queries with a tab or line break before the leading blanks", m, "leading_tab_or_newline", 500),
@@ -85,7 +86,24 @@ func (k c17) Run(c *rt.Ctx) {
 			ps = []refstore.Pair{{K: "k1", V: "1"}, {K: "k2", V: "x"}}
 		}
 		var q string
-		switch r.Intn(8) {
+		wantPos := -2
+		switch r.Intn(9) {
+		case 3: // a run-time fault on a constant call at a known offset, behind a varying amount of (also non-ASCII) text
+			conj := []string{"key != 'gr\xc3\xb6\xc3\x9fe'", "value != 'na\xc3\xafve'", "key != '\xc5\xbc\xc3\xb3\xc5\x82\xc4\x87'", "key ^= 'k'", "value != 'zzzz'", "strlen(key) > 0", "key != '" + strings.Repeat("y", r.Range(5, 60)) + "'", "value != '\xe6\x97\xa5\xe6\x9c\xac\xe8\xaa\x9e'"}
+			var parts []string
+			for j, n := 0, r.Intn(5); j < n; j++ {
+				parts = append(parts, conj[r.Intn(len(conj))])
+			}
+			fm := [][2]string{{"int(value) / int('0') > 1", "int('0')"}, {"substr(key, upper('x'), 1) = 'a'", "upper('x')"}, {"float(value) / strlen('') > 1", "strlen('')"}, {"7 / int('0') > strlen(key)", "int('0')"}, {"int(value) / int(lower('0')) > 1", "int(lower"}}[r.Intn(5)]
+			fault, mark := fm[0], fm[1]
+			parts = append(parts, fault)
+			q = []string{"select key where ", "select key, value where ", "delete where "}[r.Intn(3)] + strings.Join(parts, " & ")
+			if r.Chance(1, 3) {
+				q += " & value != '" + strings.Repeat("w", r.Range(3, 40)) + "'"
+			}
+			wantPos = strings.LastIndex(q, mark)
+			ps = []refstore.Pair{{K: "k1", V: "7"}, {K: "k2", V: "10"}, {K: "k3", V: "3"}}
+			c.Rec.Inc("constant_call_faults_at_known_offsets")
 		case 0: // execution-time errors
 			q = c17ExecErr[r.Intn(len(c17ExecErr))]
 			if r.Bool() {
@@ -132,8 +150,15 @@ func (k c17) Run(c *rt.Ctx) {
 			q = []string{"\n", "\t", "\r\n", "\n\n", "\t\t ", " \n"}[r.Intn(6)] + " " + q
 			c.Rec.Inc("leading_tab_or_newline")
 		}
-		k.judge(c, q, ps, held)
+		if wantPos >= 0 {
+			wantPos += len(q) - len(strings.TrimLeft(q, " \t\r\n")) // white space put in front after the offset was taken
+		}
+		k.judgeAt(c, q, ps, held, wantPos)
 	}
+}
+
+func (k c17) judge(c *rt.Ctx, q string, ps []refstore.Pair, held *c17Held) {
+	k.judgeAt(c, q, ps, held, -2)
 }
 
 func c17Lengthen(r *rt.Rand, q string) string {
@@ -213,7 +238,8 @@ type c17Held struct {
 	text  string
 }
 
-func (k c17) judge(c *rt.Ctx, q string, ps []refstore.Pair, held *c17Held) {
+// judgeAt: wantPos >= 0 is the offset the error of this statement has to carry (-2: not known)
+func (k c17) judgeAt(c *rt.Ctx, q string, ps []refstore.Pair, held *c17Held, wantPos int) {
 	rec := c.Rec
 	if strings.ContainsAny(strings.TrimSpace(q), "\n\r") {
 		rec.NotJudged("query contains a line break (rendering is line based; line breaks are not token separators)")
@@ -275,8 +301,15 @@ func (k c17) judge(c *rt.Ctx, q string, ps []refstore.Pair, held *c17Held) {
 			c.Violation("position-outside-the-query", cl("offset outside"), detail(nil))
 			return
 		}
-		// (2) token start for plan-time errors
-		if planTime && pos > 0 {
+		if wantPos >= 0 {
+			rec.Inc("known_offsets_checked")
+			if pos != wantPos {
+				c.Violation("position-not-at-the-failing-expression", cl("offset of another place"), detail(rt.D{"expected_pos": wantPos}))
+				return
+			}
+		}
+		// (2) token start (every position the library reports is the offset of a token of the statement)
+		if pos > 0 {
 			if starts, ok := c17Tokens(q); !ok {
 				rec.NotJudged("token starts undefined for this text (unterminated quote, lone ^ or ~)")
 			} else if !starts[pos] {
